@@ -47,10 +47,16 @@ def main():
             mod.run(chk, drv, rng, a.tier)
     except Exception as e:      # noqa: BLE001
         # an inconclusive / crashed run still reports the property failures it had already found
-        if not chk.d_fail:
-            raise
         aborted = '%s: %s' % (type(e).__name__, e)
-        chk.notes.append('run aborted after recording failures: ' + aborted)
+        if chk.d_fail:
+            chk.notes.append('run aborted after recording failures: ' + aborted)
+        elif isinstance(e, RuntimeError):
+            raise                      # tool failure / declared-inconclusive run: exit 2
+        else:
+            # the harness could not digest what the implementation returned (unexpected NaN, missing attribute, wrong
+            # shape ...): the correspondence no longer checks; reported as such, with the traceback as replay
+            chk.k_fail.append({'gate': 'K', 'what': 'harness could not process the implementation\'s output: ' + aborted,
+                               'case': {'traceback': traceback.format_exc()[-3000:]}})
     finally:
         if drv is not None:
             drv.close()
